@@ -280,6 +280,8 @@ def r6(ctx):
     fv = FuncView.of(f.node)
     cfg = ctx.cfg(f)
     fobj = params(f.node)[0]
+    POS = next((dotted(s2.targets[0]) for s2 in statements(f.node) if isinstance(s2, ast.Assign) and isinstance(s2.value, ast.Call) and isinstance(s2.value.func, ast.Attribute)
+                and s2.value.func.attr == "tell" and dotted(s2.value.func.value) == fobj), "pos")
     ws = [s for s in statements(f.node) if isinstance(s, ast.While)]
     if len(ws) != 1:
         ctx.ob("R6", "LOOP", f, "scan loop", False, f"{len(ws)} while loops")
@@ -287,10 +289,10 @@ def r6(ctx):
     w = ws[0]
     ok, detail, _ = loops.analyse_loop(ctx, f, w)
     ctx.ob("R6", "LOOP", f, "scan loop progress", ok, detail, w)
-    ups = [s for s in ast.walk(w) if isinstance(s, ast.AugAssign) and dotted(s.target) == "pos"]
+    ups = [s for s in ast.walk(w) if isinstance(s, ast.AugAssign) and dotted(s.target) == POS]
     ctx.ob("R6", "LOOP", f, "pos += 1", len(ups) == 1 and isinstance(ups[0].op, ast.Add) and _c(ups[0].value) == 1, f"position advances by {[src(u) for u in ups]} (exactly 1: every offset is tested)")
     # header test: pos + 16 == u32-le(4 bytes read at pos)
-    tests = [s for s in ast.walk(w) if isinstance(s, ast.If) and any(isinstance(op, ast.Eq) and "pos" in src(l) + src(r) for l, op, r in compare_parts(s.test))]
+    tests = [s for s in ast.walk(w) if isinstance(s, ast.If) and any(isinstance(op, ast.Eq) and POS in {n.id for n in ast.walk(s.test) if isinstance(n, ast.Name)} for l, op, r in compare_parts(s.test))]
     h_ok = False
     detail = "no `pos + 16 == u32(header)` test"
     reads = [c for c in ast.walk(w) if isinstance(c, ast.Call) and isinstance(c.func, ast.Attribute) and c.func.attr == "read" and dotted(c.func.value) == fobj]
@@ -299,11 +301,11 @@ def r6(ctx):
         for l, op, r in compare_parts(t.test):
             for a, b in ((l, r), (r, l)):
                 pa = sympoly(a)
-                if pa == SymPoly.atom("pos") + SymPoly.const(16) and isinstance(b, ast.Call):
+                if pa == SymPoly.atom(POS) + SymPoly.const(16) and isinstance(b, ast.Call):
                     cal = ctx.rs.resolve_call(f, b)
                     le32 = cal.kind == "func" and cal.func.fq == "utils.unpack" and _c(cal.bound.get("size")) == 4 and (_c(cal.bound.get("byteorder")) or "little") == "little"
                     first = bool(reads) and bool(b.args) and _last_def_is(f, b.args[0], reads[0], b) and _c(reads[0].args[0]) == 4
-                    seek = [c for c in ast.walk(w) if isinstance(c, ast.Call) and isinstance(c.func, ast.Attribute) and c.func.attr == "seek" and dotted(c.func.value) == fobj and dotted(c.args[0]) == "pos"]
+                    seek = [c for c in ast.walk(w) if isinstance(c, ast.Call) and isinstance(c.func, ast.Attribute) and c.func.attr == "seek" and dotted(c.func.value) == fobj and dotted(c.args[0]) == POS]
                     h_ok = le32 and bool(first) and bool(seek)
                     detail = f"header test `{src(t.test)}`: little-endian u32={le32}; of the 4 bytes read at pos={bool(first)}; after fobj.seek(pos)={bool(seek)}"
                     hdr_if = t
@@ -314,7 +316,7 @@ def r6(ctx):
         inner = [c for c in inner if any(c is x for s2 in hdr_if.body for x in ast.walk(s2))]
         inner.sort(key=lambda c: (c.lineno, c.col_offset))
         widths = [src(c.args[0]) if c.args else None for c in inner]
-        ctx.ob("R6", "AGREE", f, "field reads", widths == ["4", "4", "8", "size"], f"reads after the header: {widths}; required ['4','4','8','size']")
+        ctx.ob("R6", "AGREE", f, "field reads", widths[:3] == ["4", "4", "8"] and len(widths) == 4, f"reads after the header: {widths}; required 4, 4, 8 and the decoded size")
         ys = [y for y in ast.walk(hdr_if) if isinstance(y, ast.Yield)]
         y_ok = False
         detail = "no yield of ArtifactKitPayload in the matching branch"
@@ -330,12 +332,13 @@ def r6(ctx):
                 size_ok = cal.kind == "func" and cal.func.fq == "utils.unpack" and _c(cal.bound.get("size")) == 4 and (_c(cal.bound.get("byteorder")) or "little") == "little"
             pay = origin(f.node, kws.get("payload")) if kws.get("payload") is not None else None
             pay_ok = isinstance(pay, ast.Call) and ctx.rs.resolve_call(f, pay).fq == "utils.xor" and len(pay.args) == 2 and _last_def_is(f, pay.args[0], inner[3] if len(inner) > 3 else None, pay) and is_read(pay.args[1], 1)
-            y_ok = dotted(kws.get("offset")) == "pos" and size_ok and is_read(kws.get("xorkey"), 1) and is_read(kws.get("hints"), 2) and pay_ok
-            detail = f"offset=pos={dotted(kws.get('offset')) == 'pos'}; size=le u32 of first read={size_ok}; xorkey=second read={is_read(kws.get('xorkey'), 1)}; hints=third read={is_read(kws.get('hints'), 2)}; payload=xor(<payload read>, <xorkey read>)={pay_ok}"
+            y_ok = dotted(kws.get("offset")) == POS and size_ok and is_read(kws.get("xorkey"), 1) and is_read(kws.get("hints"), 2) and pay_ok
+            detail = f"offset=pos={dotted(kws.get('offset')) == POS}; size=le u32 of first read={size_ok}; xorkey=second read={is_read(kws.get('xorkey'), 1)}; hints=third read={is_read(kws.get('hints'), 2)}; payload=xor(<payload read>, <xorkey read>)={pay_ok}"
         ctx.ob("R6", "AGREE", f, "yield ArtifactKitPayload(...)", y_ok, detail)
     # start / limit handling
     mr = [s for s in ast.walk(w) if isinstance(s, ast.If) and "maxrange" in src(s.test)]
-    ok = len(mr) == 1 and src(mr[0].test) == "maxrange is not None and pos > maxrange"
+    from csverif.astutil import pmatch
+    ok = len(mr) == 1 and pmatch("maxrange is not None and $p > maxrange", mr[0].test) == {"p": POS}
     ctx.ob("R6", "AGREE", f, "maxrange test", ok, f"limit test: {[src(m.test) for m in mr]}")
 
 
